@@ -1,4 +1,5 @@
 """C05 — ABI-breaking source changes are always reported."""
+import re
 from hypothesis import strategies as st
 from ..gen import strategies as S, model as M, mutate as MU
 from .. import cbuild, pairs
@@ -34,6 +35,70 @@ def strategy(tier):
     return strategy_(tier)
 
 
+MASKED = "member-type-change-masked-by-harmless-union-change"
+_HARMLESS_ONLY = {"HARMLESS_UNION_CHANGE_CATEGORY", "REDUNDANT_CATEGORY"}
+_NODE = re.compile(r"^( *)(\w+)\[(.*)\]$")
+
+
+def diff_tree(text):
+    """Parse `abidiff --dump-diff-tree` (stderr) into [(indent, kind, subjects, {categories})]."""
+    nodes = []
+    lines = text.splitlines()
+    for k, l in enumerate(lines):
+        m = _NODE.match(l)
+        if not m or k + 2 >= len(lines) or lines[k + 1].strip() != "{":
+            continue
+        c = lines[k + 2].strip()
+        if not c.startswith("category:"):
+            continue
+        nodes.append((len(m.group(1)), m.group(2), m.group(3), set(x.strip() for x in c[9:].split("|"))))
+    return nodes
+
+
+def masked_by_harmless_union(cx, b1, b2, info):
+    """Recognise exactly the recorded defect (known_findings.json, C05): the data member's type change keeps every size
+    and offset, so categorize_harmful_diff_node gives it no category; the enclosing class also has a by-value union
+    member whose own diff is size-preserving (HARMLESS_UNION_CHANGE_CATEGORY, e.g. the union points back to the class);
+    that category is propagated to the class_diff, whose category set then holds nothing that is allowed by default, and
+    diff::is_filtered_out drops the class_diff together with the uncategorized sibling.  All of this is read off the
+    tool's own diff tree and its --harmless report; anything else that hides the change stays a violation."""
+    if info["kind"] != "member_type":
+        return False
+    t = pairs.abidiff(cx, b1, b2, ["--dump-diff-tree"])
+    if cbuild.crashed(t) or t.rc != 0:
+        return False
+    nodes = diff_tree(t.etext())
+    q = re.escape("%s::%s" % (info["type"], info["member"]))
+    rx = re.compile(r"^.*(?<![\w:])%s, .*(?<![\w:])%s$" % (q, q))
+    hit = False
+    for k, (ind, kind, subj, cats) in enumerate(nodes):
+        if kind != "var_diff" or not rx.match(subj) or cats != {"NO_CHANGE_CATEGORY"}:
+            continue
+        pk = next((j for j in range(k - 1, -1, -1) if nodes[j][0] == ind - 2), None)
+        if pk is None:
+            return False
+        parent = nodes[pk]
+        # the parent's subtree: everything after it that is indented deeper
+        end = next((j for j in range(pk + 1, len(nodes)) if nodes[j][0] <= parent[0]), len(nodes))
+        sub = nodes[pk + 1:end]
+        from_union = any(n[1] == "union_diff" and "HARMLESS_UNION_CHANGE_CATEGORY" in n[3] for n in sub)
+        # --dump-diff-tree prints every instance of a diff node; only the first-visited/canonical instances carry the
+        # categories, the other instances of class_diff[T, T] show NO_CHANGE_CATEGORY
+        if parent[1] != "class_diff" or not parent[3] <= _HARMLESS_ONLY | {"NO_CHANGE_CATEGORY"}:
+            return False
+        if "HARMLESS_UNION_CHANGE_CATEGORY" in parent[3] and from_union:
+            hit = True
+    if not hit:
+        return False
+    h = pairs.abidiff(cx, b1, b2, ["--harmless"])
+    if cbuild.crashed(h) or not h.rc & R.STATUS_CHANGE or h.rc & R.STATUS_ERROR:
+        return False
+    txt = h.text()
+    if "type size changed" in txt or "offset changed" in txt:
+        return False
+    return any(pairs.mentions([txt], a) for a in info["affected"])
+
+
 def run_case(case, cx):
     m, m2, info, cfg = case["model"], case["mutant"], case["info"], case["cfg"]
     if m2 is None:
@@ -54,6 +119,9 @@ def run_case(case, cx):
         return
     det = {"mutation": info, "run": r.brief(), "types.h(v1)": M.render_header(m), "types.h(v2)": M.render_header(m2)}
     if not r.rc & R.STATUS_CHANGE:
+        if masked_by_harmless_union(cx, b1, b2, info):
+            cx.violation(MASKED, det)
+            return
         cx.violation("not-reported:" + info["kind"], det)
         return
     rep = pairs.parse_or_oracle_error(cx, r)
